@@ -7,6 +7,7 @@ import synq
 from synq import canon, walk
 import capysrc
 import facts as FA
+from facts import short
 
 PROPERTY = "C18"
 TITLE = "Runtime reflection and type values describe the code actually generated"
@@ -887,6 +888,28 @@ def r18g(ctx, run):
                   "%s: %s - a type id must identify one type: reflection (size_of, get_type_info, any) would describe the other type" % (desc, "; ".join(problems)))
 
 
+def r18h(ctx, run):
+    """the type id a conversion to `any` / `type` writes is the id of the value's own (declared) type: in cast_into_memory every to_type_id is applied
+    to the `cast_from` it was given, never to a type from which the nominal wrappers were already stripped (absolute_intern_ty / absolute_ty) - otherwise
+    an `any` made from a `distinct T` value says it holds a `T`"""
+    F = ctx.facts
+    fn = F.fn("codegen::compiler::cast_into_memory")
+    U = "codegen::compiler::cast_into_memory"
+    n = 0
+    for c in fn.calls():
+        if short(c.callee) != "to_type_id":
+            continue
+        n += 1
+        recv = fn.chain_operand(c.args[0], depth=14)
+        stripped = [short(x["callee"]) for x in FA.walk_chain(recv) if x.get("kind") == "call" and short(x["callee"]) in ("absolute_intern_ty", "absolute_ty", "absolute_ty_keep_variants")]
+        from_param = any(x.get("kind") == "param" and x.get("name") == "cast_from" for x in FA.walk_chain(recv))
+        run.check(from_param and not stripped, c.site(), "to_type_id is applied to the cast's source type as given", U, "type-id-of-declared-type", c.file, c.ln,
+                  "the type id written by this conversion is computed from %s: the id must be the one of the value's declared type (a `distinct` wrapper is part of the type an "
+                  "`any` reports)" % ("a type passed through " + ", ".join(sorted(set(stripped))) if stripped else FA.show_chain(recv, 5)[:80]))
+    if n < 2:
+        raise LookupError("to_type_id calls in cast_into_memory: %d" % n)
+
+
 def rules(ctx):
     return [
         Rule("R18.a", "discriminant constants agree (Rust/capy), simple<16<=indexed, each Ty arm uses its own discriminant and uid generator", 60, r18a),
@@ -895,5 +918,6 @@ def rules(ctx):
         Rule("R18.d", "per record kind: writer field order/widths = meta.capy struct = BuiltinKind::to_expected", 40, r18d),
         Rule("R18.e", "reflected sizes/aligns/offsets come from codegen's own layout queries", 15, r18e),
         Rule("R18.g", "type ids identify types: to_type_id as a state machine - stable id per type, distinct ids (and rows) for distinct types incl. generic instantiations", 9, r18g),
+        Rule("R18.h", "the type id written into an `any` / `type` is the id of the value's declared type (not of a type stripped of its nominal wrappers)", 2, r18h),
         Rule("R18.f", "the kind chain K_infos / K_layouts is name-consistent through every table", 70, r18f),
     ]
